@@ -98,6 +98,33 @@ def run(ctx):
     res = cr.sweep(ctx, PID, exe, jobs, job_ops, oracle)
     for job, ops, tr, bad, info in res:
         ctx.count("delay_points_checked", info.get("delay_points", 0))
+    # ---- end-of-input at EVERY stream length: whether a frame has been handed out that the final total does not contain depends on
+    #      where in the output period the input stops, so each configuration is run for N = 0..span with everything available taken
+    #      before end-of-input is said (generous room), delay read before and after.  Ratios: the grid of small ratios, factors whose
+    #      integer part is odd / even on both sides of 4 (the cubic stage's hold-back is max(3, floor(factor))), one recipe per class.
+    span = 40 if ctx.quick else 130
+    ecfgs = []
+    erng = common.Rng(ctx.rng.next())
+    ratios = [(49, 10), (31, 5), (17, 2), (4, 1), (5, 1), (9, 2), (41, 10), (7, 3), (3, 7), (1, 5), (11, 10), (10, 11), (160, 147)]
+    grid = cr.small_ratio_grid(7)
+    ratios += [grid[erng.below(len(grid))] for _ in range(6 if ctx.quick else 40)]
+    ratios += [(erng.uniform(3.5, 9.5), 1) for _ in range(4 if ctx.quick else 30)]
+    for (a, b) in ratios:
+        for recipe in ([0, erng.choice([1, 4, 6])] if ctx.quick else [0, 1, 3, 4, 6]):
+            ecfgs.append({"ir": repr(float(a)), "or": repr(float(b)), "recipe": recipe, "qflags": erng.choice([0, 0, 8])})
+    ejobs = [{"cfg": c, "env": {}, "N": n, "seed": 0, "idx": i, "style": "eoi-everywhere"} for i, c in enumerate(ecfgs) for n in range(span)]
+
+    def eoi_ops(job, plan):
+        est = int(job["N"] / cr.io_ratio(job["cfg"])) + 50
+        ops = [cr.create_line(job["cfg"]), "limit %d" % job["N"], "delay", "eoistyle %d" % (job["N"] % 3)]
+        if job["N"]:
+            ops += ["feed %d %d 0" % (job["N"], est), "delay", "feed 0 %d 0" % est, "delay"]      # second call: whatever else is ready, still streaming... (N used up: this call says end-of-input)
+        ops += ["drain %d" % est, "delay"]
+        return ops
+    res2 = cr.sweep(ctx, PID, exe, ejobs, eoi_ops, oracle)
+    ctx.count("eoi_everywhere_jobs", len(res2))
+    for job, ops, tr, bad, info in res2:
+        ctx.count("delay_points_checked", info.get("delay_points", 0))
     ctx.cov["rule"] = ("random (configuration, N, schedule) jobs with soxr_delay() read after every call, before input, after the drain and "
                        "after soxr_clear; real answers replayed through the Lean count model (delay compared bit for bit) and checked against "
                        "the property in exact rationals: delivered + round(delay + remaining*orate/irate) = round(N*orate/irate); "
